@@ -72,6 +72,8 @@ func C05(c *Ctx) {
 	c.R.Rule("C05-R7", "E5", "the order in which candidate bindings are offered to a guard does not follow map iteration", 1)
 	c05CandidateOrder(c)
 	c.R.Rule("C05-R6", "E3", "a step that evaluated branches reports its stride (which records the consumption)", 1)
+	c.shareRule("C16", "C16-R2", "C05-R9", "in the multi-request host every step starts from the state the previous one produced: the walk and the installation of its result hold the crew's write lock in one critical section")
+	c.shareRule("C02", "C02-R8", "C05-R10", "absent bindings are matched as empty bindings: a machine without bindings still takes its pattern branches")
 	c.R.Rule("C05-R8", "E1", "Walk reads the batch of messages it is given and never writes it (hosts offer one batch to several machines and re-deliver sub-slices)", 1)
 	c.batchUntouched("C05-R8")
 	c05StrideAfterBranches(c)
